@@ -208,6 +208,7 @@ func c11Queries() [][]*gripql.GraphStatement {
 		gripql.V().Out().HasLabel("P").Statements, // extends q1
 		gripql.V().In().Statements,                // 2 steps, diverges at step 2
 		gripql.V().Out().HasLabel("Q").Statements, // same length as q2, differs in the last step
+		gripql.V().In().HasLabel("P").Statements,  // same length and same LAST step as q2, differs in the middle
 	}
 }
 
@@ -528,7 +529,7 @@ func c11Body(run *vf.Run, tier string) {
 	run.Coverage["evaluations"] = evals + st.Transitions
 	run.Coverage["distinct_nontrivial"] = len(distinct)
 	run.Coverage["exhaustive"] = st.Exhaustive
-	run.Coverage["rule"] = "A1: 9 traversal families (all result types) x 9 graph sizes around 4/40; A2: every split of every well-typed order-independent program up to the length bound over the core alphabet on 2 fixtures; B: BFS over submit(5 queries x 2 graphs)/delete/restart histories with list, search (5 probe queries), status and stream observed after every step"
+	run.Coverage["rule"] = "A1: 9 traversal families (all result types) x 9 graph sizes around 4/40; A2: every split of every well-typed order-independent program up to the length bound over the core alphabet on 2 fixtures; B: BFS over submit(6 queries x 2 graphs)/delete/restart histories with list, search (6 probe queries), status and stream observed after every step"
 	if len(samples) == 0 {
 		samples = []string{"submit V().as(m1) ; resume with out().select(m1)"}
 	}
